@@ -214,11 +214,16 @@ def gate():
     return bad
 
 
-def coq_build(timeout=2400):
-    """full .vo build of /verif/coq (no -vos).  Returns (ok, log)."""
-    rc, out, _ = run("flock .build.lock -c 'coq_makefile -f _CoqProject -o Makefile > /dev/null 2>&1 && "
-                     f"timeout {timeout} make -j{NPROC} 2>&1 | tail -40'", cwd=COQ, timeout=timeout + 60)
+def coq_build(targets=None, timeout=2400):
+    """full .vo build (no -vos) of the given targets and everything they depend on (default: the
+    whole development).  Returns (ok, log)."""
+    tg = " ".join(targets) if targets else ""
+    script = ("coq_makefile -f _CoqProject -o Makefile > /dev/null 2>&1 && "
+              f"timeout {timeout} make -j{NPROC} {tg} 2>&1 | tail -40; exit ${{PIPESTATUS[0]}}")
+    rc, out, _ = run(["flock", ".build.lock", "bash", "-c", script], cwd=COQ, timeout=timeout + 60)
     ok = rc == 0 and "Error" not in out
+    if ok and targets:
+        ok = all(os.path.exists(os.path.join(COQ, t)) for t in targets)
     return ok, out
 
 
